@@ -932,7 +932,7 @@ class ChainedVisitor(ASTVisitor):
                 break
             cur = v.enter(cur)
 
-        return node
+        return cur
 
     def leave(self, node: N) -> None:
         for v in self.visitors[::-1]:
